@@ -40,11 +40,14 @@ static void teardown_zombie(int s);               /* set by cb_enter(CB_STOP): i
 static int in_pass;                      /* an evaluation pass may be running (inside dispatch) */
 
 /* the module stops (stop, pill, refused start, deregistration): everything the statement says is dropped */
+static int flush_phase;                        /* inside the dispatch call that stops the loop (final flush) */
 static void mon_stop_effects(int s) {
     mod_t *m = &MD[s];
     if (m->st == S_PAUSED) m->life |= 128;        /* how the reset was reached is part of the dedup key too: a reset path may leave residue */
     if (m->nst) m->life |= 256;
     if (m->nhs) m->life |= 512;
+    if (in_cb_slot == s) m->life |= 2048; else if (in_cb_slot >= 0) m->life |= 4096;      /* stopped from inside its own / another module's callback */
+    if (flush_phase) m->life |= 8192;
     for (int i = 0; i < m->nmb; i++) if (!m->mb[i].optional && m->mb[i].kind == 0) MSG[m->mb[i].msg].owed--;
     m->nmb = 0;
     memset(m->sub, 0, sizeof m->sub);
@@ -146,7 +149,6 @@ static void w_stop(m_mod_t *self) {
 
 /* ---- deliveries ---- */
 static int unstash_slot = -1, unstash_n;       /* set around m_mod_unstash: the nested invocation is a replay */
-static int flush_phase;                        /* inside the dispatch call that stops the loop (final flush) */
 static const m_evt_t *cur_evts[32]; static int cur_evrec[32]; static int ncur;   /* events of the innermost handler invocation */
 static int cur_handler_id;
 static int msg_busy[MAXMSG];
